@@ -287,3 +287,35 @@ def parse_item_outcomes(facts):
         out.append((arm_key(test), test, outcomes))
     else_out = flow.run(else_body, base.clone()) if else_body else []
     return out, else_out
+
+
+def chain_outcomes(facts, fn_name, tokens_name, line_name='line'):
+    """Generic version of parse_item_outcomes for a function whose body is `prelude; if/elif chain` over a token list
+    parameter (parse_immediate)."""
+    fn = facts.funcs.get(fn_name)
+    if fn is None:
+        raise AnalysisError('anchor vanished: ' + fn_name)
+    flow = TokenFlow(facts, tokens_name=tokens_name, line_name=line_name)
+    base = Path()
+    chain = None
+    for st in fn.body:
+        if isinstance(st, ast.If) and st.orelse:
+            chain = st
+            break
+        if isinstance(st, ast.Assign) and isinstance(st.targets[0], ast.Name):
+            base.env[st.targets[0].id] = flow.ev(st.value, base)
+    if chain is None:
+        raise AnalysisError('anchor vanished: dispatch chain of ' + fn_name)
+    arms = []
+    cur = chain
+    while True:
+        arms.append((cur.test, cur.body))
+        if len(cur.orelse) == 1 and isinstance(cur.orelse[0], ast.If):
+            cur = cur.orelse[0]
+        else:
+            else_body = cur.orelse
+            break
+    out = []
+    for test, body in arms:
+        out.append((arm_key(test), test, flow.run(body, base.clone())))
+    return out, flow.run(else_body, base.clone())
